@@ -23,45 +23,45 @@ import (
 // race detector then reports exactly the library's own unsynchronised conflicting accesses.
 
 type rThread struct {
-	id     int
-	name   string
-	rfd    int // the thread blocks reading this end
-	wfd    int // the scheduler releases the thread by writing here
-	kind   uint8
-	latch  *smutex.SMutex128
-	arg    uint32
-	mu     unsafe.Pointer // ptMuLock: the mutex about to be acquired
-	muRW   bool
-	muW    bool
+	id    int
+	name  string
+	rfd   int // the thread blocks reading this end
+	wfd   int // the scheduler releases the thread by writing here
+	kind  uint8
+	latch *smutex.SMutex128
+	arg   uint32
+	mu    unsafe.Pointer // ptMuLock: the mutex about to be acquired
+	muRW  bool
+	muW   bool
 	// announced: the thread waits for an exclusive acquisition and has, in this schedule,
 	// already made its Lock() call: like a pending writer of a sync.RWMutex it holds new
 	// readers of that lock back until it got the lock (writer preference)
 	announced bool
-	done   bool
-	panicV any
-	body   func()
+	done      bool
+	panicV    any
+	body      func()
 }
 
 type rSim struct {
-	threads  []*rThread
-	cur      *rThread
-	sr, sw   int // scheduler pipe: threads write sw when they park or finish
-	rng      *Rng
-	strategy string
-	replay   []int16
-	sched    []int16
-	steps    int
-	choices  int
-	trace    hash64
-	ilv      hash64
-	last     *rThread
-	hits     [ptMax]int
+	threads   []*rThread
+	cur       *rThread
+	sr, sw    int // scheduler pipe: threads write sw when they park or finish
+	rng       *Rng
+	strategy  string
+	replay    []int16
+	sched     []int16
+	steps     int
+	choices   int
+	trace     hash64
+	ilv       hash64
+	last      *rThread
+	hits      [ptMax]int
 	hung      bool
 	hungAlone bool // ... and no other thread could have run
 	dead      bool
-	desc     string
+	desc      string
 	announces int
-	muMuted  bool // mutex points do not yield in this run unless the mutex is held (buggify)
+	muMuted   bool // mutex points do not yield in this run unless the mutex is held (buggify)
 }
 
 var rs *rSim
